@@ -37,6 +37,9 @@ type Outcome struct {
 	Log          []string       `json:"log,omitempty"` // canonical event log (no key bytes, no addresses)
 	Inconclusive int            `json:"inconclusive,omitempty"`
 	Interleaving string         `json:"interleaving,omitempty"` // hash of the lock/IO order, scheduled worlds
+	Evaluations  int            `json:"evaluations,omitempty"`  // executions inside this run (fault enumeration); 0 means 1
+	ExtraSigs    []string       `json:"-"`                      // further behaviour signatures (one per enumerated placement)
+	All          []*Violation   `json:"-"`                      // every failed oracle of the run, any property
 }
 
 func (o *Outcome) Fault(kind string) {
@@ -59,10 +62,26 @@ func (o *Outcome) Logf(format string, a ...any) {
 
 // Fail records the first violation of a run.
 func (o *Outcome) Fail(oracle, key string, step int, format string, a ...any) {
-	if o.Violation != nil {
-		return
+	o.All = append(o.All, &Violation{Oracle: oracle, Key: key, Step: step, Detail: fmt.Sprintf(format, a...)})
+}
+
+// selectViolation keeps the first failed oracle that belongs to the property
+// being checked (a world evaluates the oracles of all its properties on every
+// run; each check reports only its own). Harness self-checks always count.
+func (o *Outcome) selectViolation(prop string) {
+	o.Violation = nil
+	for _, v := range o.All {
+		if strings.HasPrefix(v.Oracle, "harness.") {
+			o.Violation = v
+			return
+		}
 	}
-	o.Violation = &Violation{Oracle: oracle, Key: key, Step: step, Detail: fmt.Sprintf(format, a...)}
+	for _, v := range o.All {
+		if strings.HasPrefix(v.Oracle, prop+".") {
+			o.Violation = v
+			return
+		}
+	}
 }
 
 // Spec describes how one property is explored in a world.
@@ -225,10 +244,14 @@ func RunWorker(t *testing.T, specs []*Spec) {
 }
 
 func execute(t *testing.T, spec *Spec, plan json.RawMessage) *Outcome {
+	if f := os.Getenv("VERIF_INFLIGHT"); f != "" {
+		os.WriteFile(f, plan, 0o644)
+	}
 	o := spec.Execute(t, plan)
 	if spec.PostProcess != nil {
 		spec.PostProcess(o)
 	}
+	o.selectViolation(spec.Property)
 	return o
 }
 
@@ -253,9 +276,15 @@ func exploreMode(t *testing.T, spec *Spec, res *WorkerResult) {
 		plan := mustJSON(spec.Generate(NewRng(runSeed), tier))
 		o := execute(t, spec, plan)
 		res.Runs++
+		if o.Evaluations > 1 {
+			res.Runs += o.Evaluations - 1
+		}
 		if o.Signature != "" {
 			res.Nontrivial++
 			sigs[sigHash(o.Signature)] = struct{}{}
+		}
+		for _, x := range o.ExtraSigs {
+			sigs[sigHash(x)] = struct{}{}
 		}
 		if o.Interleaving != "" {
 			ilv[o.Interleaving] = struct{}{}
@@ -270,6 +299,10 @@ func exploreMode(t *testing.T, spec *Spec, res *WorkerResult) {
 		res.Inconclusive += o.Inconclusive
 		if len(res.Samples) < 3 && (o.Signature != "" || i > 20) {
 			res.Samples = append(res.Samples, plan)
+		}
+		if o.Violation != nil && strings.HasPrefix(o.Violation.Oracle, "harness.") {
+			res.Error = "harness self-check failed: " + o.Violation.String() + " plan=" + string(plan)
+			break
 		}
 		if o.Violation != nil {
 			if e, ok := known[o.Violation.Oracle+"|"+o.Violation.Key]; ok {
